@@ -13,10 +13,11 @@ import (
 )
 
 type FidelityResult struct {
-	Scenarios      int `json:"scenarios"`
-	Exact          int `json:"exact"`
-	AsLineSet      int `json:"equal_as_line_multiset"`
-	OrderDependent int `json:"plain_result_reached_under_another_seeded_order"`
+	Scenarios             int `json:"scenarios"`
+	Exact                 int `json:"exact"`
+	AsLineSet             int `json:"equal_as_line_multiset"`
+	OrderDependent        int `json:"plain_result_reached_under_another_seeded_order"`
+	PlainNondeterministic int `json:"plain_binary_disagrees_with_itself"`
 }
 
 // reachable: some seeded map order / schedule makes the instrumented binary
@@ -105,6 +106,19 @@ func FidelityGate(env *Env, seed uint64) (*FidelityResult, error) {
 						if reachable(env, b, rp) {
 							res.OrderDependent++
 							return
+						}
+						// a tree that is nondeterministic on the real runtime has no
+						// single plain behaviour to be faithful to
+						plAgain := b.StepOf(1)
+						plAgain.Plain = true
+						for k := 0; k < 4; k++ {
+							mu.Unlock()
+							r2, err2 := env.Exec(&plAgain)
+							mu.Lock()
+							if err2 == nil && (r2.Exit != rp.Exit || !bytes.Equal(r2.Stdout, rp.Stdout)) {
+								res.PlainNondeterministic++
+								return
+							}
 						}
 						if firstErr == nil {
 							firstErr = Infraf("FIDELITY: instrumented and plain binary disagree on `crd %s`: sim exit=%d stdout=%q stderr=%q; plain exit=%d stdout=%q stderr=%q",
